@@ -1,2 +1,9 @@
-(* C19 *)
-From WaxModel Require Import Base.
+(* C19 -- Re-expressing or re-owning a pattern does not change its behaviour. *)
+From WaxModel Require Import Base Token Query.
+From WaxProofs Require Import AlgebraFacts.
+
+(* into_owned / clone / the combinator go through Token::fold_map: with the identity on annotations it returns
+   the same tree (children kept in order; repetition bounds survive the detour through NaturalRange) *)
+Theorem C19_fold_map_id : forall t, tok_bounds_ok t -> fold_map (fun sp => sp) t = Ok t.
+Proof. exact fold_map_id. Qed.
+Print Assumptions C19_fold_map_id.
